@@ -4,7 +4,7 @@ Every random choice comes from the `random.Random` handed in (derived from
 VERIF_SEED), so a case replays exactly.  Generators return descriptors of
 harness/exact.py plus a `cls` string naming the position class for the
 distribution report."""
-import itertools
+import itertools, os
 from fractions import Fraction as F
 from . import exact as E
 from .exact import add, sub, mul, neg, dot, cross, nsq, is0, V
@@ -18,10 +18,24 @@ class Gen:
     def __init__(self, rng, span=4):
         self.R = rng
         self.span = span
+        # axis mode: integer coordinates and axis-aligned frames (what users of Parallelepiped / unit shapes build; defect D12
+        # lived there).  One chunk of cases in six runs in this mode; G3D_GEN_AXIS=1 / 0 forces it on / off.
+        env = os.environ.get('G3D_GEN_AXIS')
+        self.axis = (env == '1') if env in ('0', '1') else (rng.random() < 1 / 6)
+
+    def _axis_vecs(self):
+        """two different signed, scaled coordinate axes"""
+        R = self.R
+        a, b = R.sample(range(3), 2)
+        u = tuple(F(R.choice([1, 1, 2, -1, -2])) if t == a else F(0) for t in range(3))
+        v = tuple(F(R.choice([1, 1, 2, -1, -2])) if t == b else F(0) for t in range(3))
+        return u, v
 
     # ---------------------------------------------------------------- primitives
     def coord(self, span=None):
         span = span or self.span
+        if self.axis:
+            return F(self.R.randint(-min(span, 3), min(span, 3)))
         den = self.R.choice([1, 1, 1, 2, 4])
         return F(self.R.randint(-span * den, span * den), den)
 
@@ -48,6 +62,8 @@ class Gen:
             o = self.pt(3)
             d = self.dirv(2)
             e = self.dirv(2)
+            if self.axis:
+                d, e = self._axis_vecs()
             n = cross(d, e)
             if is0(n):
                 continue
@@ -60,6 +76,8 @@ class Gen:
         """small lattice frame for coplanar polygons: o, d, v span the plane"""
         while True:
             o, u, v = self.ipt(-2, 2), self.ipt(-2, 2), self.ipt(-2, 2)
+            if self.axis:
+                u, v = self._axis_vecs()
             n = cross(u, v)
             if not is0(n):
                 return dict(o=o, d=u, v=v, n=n, w=cross(n, u))
@@ -212,7 +230,7 @@ class Gen:
         for _ in range(1000):
             if fr is None:
                 o = self.ipt(-3, 3)
-                if R.random() < 0.25:      # axis-aligned carrier plane (x, y or z constant): axis-specific code paths
+                if self.axis or R.random() < 0.25:      # axis-aligned carrier plane (x, y or z constant): axis-specific code paths
                     ax = R.sample(range(3), 2)
                     u = tuple(F(R.choice([1, 2, -1])) if t == ax[0] else F(0) for t in range(3))
                     v = tuple(F(R.choice([1, 2, -1])) if t == ax[1] else F(0) for t in range(3))
@@ -263,6 +281,9 @@ class Gen:
             base = [V(0, 0, 0), V(2, 0, 0), V(0, 2, 0), V(0, 0, 2)]
         while True:
             M = [self.ipt(-2, 2) for _ in range(3)]
+            if self.axis:
+                perm = R.sample(range(3), 3)
+                M = [tuple(F(R.choice([1, 1, 2, -1])) if t == perm[j] else F(0) for t in range(3)) for j in range(3)]
             if E.det3(*M) == 0:
                 continue
             t = self.ipt(-2, 2)
